@@ -296,6 +296,7 @@ func RunFragment(rng *lib.Rng, tier string, dir string, sum *lib.Summary) {
 
 	runOne := func(p *Prog, origin string, ar *lib.Rng) {
 		src := p.Cdc()
+		progCoq := p.Coq() // before any shrinking mutates p
 		if seen[src] {
 			return
 		}
@@ -385,8 +386,18 @@ func RunFragment(rng *lib.Rng, tier string, dir string, sum *lib.Summary) {
 			if len(msg) > 500 {
 				msg = msg[:500]
 			}
+			shrunk := src
+			if !knownKeys[k] {
+				// delta-debug: drop statements while the same engine still fails with an internal error
+				vm := eng == "vm"
+				shrunk = shrinkProg(p, func(q *Prog) bool {
+					host.CompGauge = &limitGauge{max: 20000}
+					c := fragClass(host.RunScript(q.Cdc(), args, vm))
+					return c == lib.EInternal || c == lib.ECrash
+				})
+			}
 			sum.Fail(k, "checker-accepted fragment program fails with an internal error in the "+eng+": "+firstLine(msg),
-				map[string]any{"program": src, "args": argsTxt, "engine": eng, "error": msg})
+				map[string]any{"program": shrunk, "original": src, "args": argsTxt, "engine": eng, "error": msg})
 		}
 		accS := "false"
 		if acc {
@@ -400,7 +411,7 @@ func RunFragment(rng *lib.Rng, tier string, dir string, sum *lib.Summary) {
 		if origin == "gen" || origin == "corpus" {
 			genS = "true"
 		}
-		term := "(" + p.Coq() + ",\n [" + strings.Join(argsCoq, "; ") + "], " + accS + ", " + ri + ", " + rv + ", " + genS + ")"
+		term := "(" + progCoq + ",\n [" + strings.Join(argsCoq, "; ") + "], " + accS + ", " + ri + ", " + rv + ", " + genS + ")"
 		cw.Add(term, fragCase{Key: key, Origin: origin, Accepted: acc, Interp: orOk(ci), VM: orOk(cv), Args: argsTxt, Program: src})
 		if acc {
 			sum.Sample(map[string]any{"fragment_program": src, "args": argsTxt, "interpreter": orOk(ci), "vm": orOk(cv)})
@@ -444,6 +455,42 @@ func internalSignature(msg, src string) string {
 		return ":covariant-append-number-convert"
 	}
 	return ""
+}
+
+// keys of this leg that are listed in known_findings/C01.json (no shrinking effort is spent on them)
+var knownKeys = map[string]bool{
+	"frag:internal:interpreter:cond-unboxed:optmem":             true,
+	"frag:internal:interpreter:covariant-append-number-convert": true,
+	"frag:internal:vm:covariant-append-number-convert":          true,
+}
+
+// shrinkProg removes statements (never declarations, which would renumber variables) while the
+// failure persists; at most 80 re-executions. Returns the Cadence source of the shrunk program.
+func shrinkProg(p *Prog, fails func(*Prog) bool) string {
+	budget := 80
+	changed := true
+	for changed && budget > 0 {
+		changed = false
+		for _, b := range collect(p).blocks {
+			for i := len(*b) - 1; i >= 0 && budget > 0; i-- {
+				st := (*b)[i]
+				if st.Op == "let" || st.Op == "iflet" || st.Op == "for" {
+					continue
+				}
+				old := *b
+				nb := append([]*Stmt{}, old[:i]...)
+				nb = append(nb, old[i+1:]...)
+				*b = nb
+				budget--
+				if fails(p) {
+					changed = true
+				} else {
+					*b = old
+				}
+			}
+		}
+	}
+	return p.Cdc()
 }
 
 func orOk(c string) string {
